@@ -125,6 +125,11 @@ def check(tier):
     missing = [c for c in cases if case_key(c) not in executed]
     if missing:
         raise ToolError(f"{len(missing)} abstract cases were not executed, e.g. {missing[0]}")
+    unplaced = [r for r in recs if r["obs"] == "layout-unknown"]
+    if unplaced:
+        print(f"MODEL-DRIFT {len(unplaced)} byte-level cases could not be placed: the ciphertext / header is not laid out as "
+              f"nonce || body || tag (e.g. {unplaced[0].get('layer')}, tamper {unplaced[0].get('tamper')}: "
+              f"{unplaced[0].get('detail', {}).get('note', '')}); the untampered round trips were still judged")
     nontrivial = {case_key(r) for r in recs if r.get("exp") != "ok-exact"}
     by_obs = {}
     for r in recs:
